@@ -14,7 +14,7 @@
      * every completed instance of the target declaration is handed out, in input order;
      * fewer than min instances: error naming the declaration and the count; when all
        declarations are done and input is left: unexpected data; otherwise end of input. *)
-From Coq Require Import List Arith Bool.
+From Coq Require Import List Arith Bool NArith.
 Import ListNotations.
 From OV Require Import Base.Cases Model.Hier.
 
@@ -127,6 +127,12 @@ Definition check_hcase (c : hcase) : bool :=
   && (if hc_guard c
       then result_matches (filter_res keep (spec_kind (hc_kind c) (hc_decls c) (hc_units c))) c
       else true).
+
+(* numbers in case files are written in binary (N): a unary nat literal of a few thousand per unit id
+   makes coqc spend its time parsing *)
+Definition Un (n i : N) : unt := U (N.to_nat n) (N.to_nat i).
+Definition In_ (nm : N) (ids : list N) (ks : list inst) : inst := I (N.to_nat nm) (map N.to_nat ids) ks.
+Definition rejN (l : list N) : list nat := map N.to_nat l.
 
 (* HC: a run.  VC: accept/reject of a generated schema by the real ValidateSchema against the
    transcription of what validation enforces. *)
